@@ -17,6 +17,9 @@ type FuncSpec struct {
 	Result *Value // nil: returns no value
 	Fails  bool   // returns an error
 	Echo   bool   // returns its first argument
+	// Impl, if set, is the pure behaviour of the function, shared by the model and the real
+	// registration: result, whether there is a result, whether it fails.
+	Impl func(args []Value) (res Value, has bool, fail bool)
 }
 
 // CmdSpec describes a host command registered with AddCommand whose channel is already
@@ -48,6 +51,9 @@ func (hs *HostSpec) Model() *Host {
 		h.Funcs[f.Name] = func(m *Machine, args []Value) FuncResult {
 			m.Log = append(m.Log, "fn:"+f.Name+"("+ArgsString(args)+")")
 			switch {
+			case f.Impl != nil:
+				res, has, fail := f.Impl(args)
+				return FuncResult{V: res, HasValue: has, Err: fail}
 			case f.Fails:
 				return FuncResult{Err: true}
 			case f.Echo && len(args) > 0:
@@ -81,6 +87,15 @@ func (hs *HostSpec) Install(dr *ysgo.DialogueRunner, log *[]string) {
 			margs := RealArgs(args)
 			*log = append(*log, "fn:"+f.Name+"("+ArgsString(margs)+")")
 			switch {
+			case f.Impl != nil:
+				res, has, fail := f.Impl(margs)
+				if fail {
+					return nil, errHost
+				}
+				if !has {
+					return nil, nil
+				}
+				return ToVar(res), nil
 			case f.Fails:
 				return nil, errHost
 			case f.Echo && len(args) > 0:
@@ -127,6 +142,11 @@ type WalkOpts struct {
 	StrictErrors bool // errors of the model must be errors of the implementation at the same step
 	Seed         string
 	NewStorer    func() variable.Storer // nil: default in-memory storer created by the runner
+	// Host, if set, is called after every compared step that is not an end or an error: the host
+	// may act between two calls of Next (e.g. write to the storer and to the model store). It may
+	// use the chooser; DevBudget bounds its costly (ChooseDev) choices per path (<0: unbounded).
+	Host      func(c *explore.Chooser, step int, m *Machine, storer variable.Storer)
+	DevBudget int
 	// Step, if set, is called after every compared step for additional oracles.
 	Step func(m *Machine, r *Real, mo *Obs, ro RealObs) string
 }
@@ -137,6 +157,7 @@ type Mismatch struct {
 	Path   []int    // choices made at option groups
 	Args   []int    // every argument passed to Next, in order
 	Trace  []string // real observations up to and including the failing step
+	Notes  []string // host actions performed between the calls
 	Detail string
 }
 
@@ -226,7 +247,11 @@ func Walk(p *Program, srcs []string, hs *HostSpec, o WalkOpts) (*Mismatch, WalkS
 		o.AfterEndArgs = []int{0}
 	}
 	pathIndex := 0
-	explore.Run(explore.Options{Budget: -1}, func(c *explore.Chooser) {
+	budget := -1
+	if o.Host != nil {
+		budget = o.DevBudget
+	}
+	explore.Run(explore.Options{Budget: budget}, func(c *explore.Chooser) {
 		if found != nil {
 			c.Stop()
 			return
@@ -277,7 +302,7 @@ func Walk(p *Program, srcs []string, hs *HostSpec, o WalkOpts) (*Mismatch, WalkS
 		var path, args []int
 		var trace []string
 		fail := func(clause, detail string) {
-			found = &Mismatch{Clause: clause, Path: append([]int{}, path...), Args: append([]int{}, args...), Trace: append([]string{}, trace...), Detail: detail}
+			found = &Mismatch{Clause: clause, Path: append([]int{}, path...), Args: append([]int{}, args...), Trace: append([]string{}, trace...), Detail: detail, Notes: append([]string{}, m.Notes...)}
 			c.Stop()
 		}
 		if pan != "" {
@@ -433,6 +458,9 @@ func Walk(p *Program, srcs []string, hs *HostSpec, o WalkOpts) (*Mismatch, WalkS
 					}
 				}
 				break // what follows an error is not fixed by the properties
+			}
+			if o.Host != nil {
+				o.Host(c, step, m, storer)
 			}
 			if mo.K == OOptions {
 				ch := c.Choose(len(mo.Opts), "opt")
